@@ -412,6 +412,25 @@ class Conc:
                         if len(o) >= w:
                             return o[:w] if trunc and w >= 0 else o
                         return o + fill * (w - len(o)) if short == "leftJustified" else fill * (w - len(o)) + o
+                    if short in ("replace", "insert", "remove") and real and all(isinstance(i_, int) for i_ in ints[:1]):
+                        tgt = skip_copies(obj)
+                        new = None
+                        if short == "replace" and len(ints) == 3 and isinstance(ints[1], int) and isinstance(ch(ints[2]), str):
+                            # QString::replace(pos, n, after): nothing when pos is outside [0, size]; n is clipped to the tail
+                            pos, cnt, aft = ints[0], ints[1], ch(ints[2])
+                            if pos < 0 or pos > len(o):
+                                new = o
+                            elif cnt >= 0:
+                                cnt = min(cnt, len(o) - pos)
+                                new = o[:pos] + aft + o[pos + cnt:]
+                        elif short == "insert" and len(ints) == 2 and isinstance(ch(ints[1]), str) and 0 <= ints[0] <= len(o):
+                            new = o[:ints[0]] + ch(ints[1]) + o[ints[0]:]
+                        elif short == "remove" and len(ints) == 2 and isinstance(ints[1], int) and 0 <= ints[0]:
+                            new = o if ints[0] >= len(o) or ints[1] <= 0 else o[:ints[0]] + o[ints[0] + ints[1]:]
+                        if new is None:
+                            raise Unknown("string method %s with these arguments" % short)
+                        self.store(tgt, new, env)
+                        return new
                     if short in ("append", "prepend", "operator+=", "push_back", "reserve", "squeeze", "clear", "truncate", "chop") :
                         tgt = skip_copies(obj)
                         if short in ("reserve", "squeeze"):
